@@ -208,6 +208,13 @@ def check_requires(F, cg, req, fn=None, site=None, D=None):
                     continue
                 return p["l"]
             return None
+        if not any(strip_generics(callee_name(tt) or "") == "core::mem::swap" for _, tt in fn.calls()):
+            # the site may sit in a helper that was split off: the candidate loop is then in a caller of the same file
+            callers = [F.fns[src] for src, dsts in cg.edges.items() if fn.id in dsts and src in F.fns and F.fns[src].file == fn.file and src != fn.id]
+            for g in callers:
+                if any(strip_generics(callee_name(tt) or "") == "core::mem::swap" for _, tt in g.calls()):
+                    from .pps import Discharger as _Dis
+                    return check_requires(F, cg, req, g, site, _Dis(F, g))
         swapped = set()
         for bi, tt in fn.calls():
             if strip_generics(callee_name(tt) or "") == "core::mem::swap":
@@ -219,6 +226,27 @@ def check_requires(F, cg, req, fn=None, site=None, D=None):
         n_checked = 0
         for v in sorted(swapped):
             pushes = [bi for bi, tt in fn.calls() if strip_generics(callee_name(tt) or "").endswith("Vec::push") and recv_local(tt) == v]
+            # a helper of the same file that is handed `&mut v` and pushes into that parameter pushes into v
+            for bi, tt in fn.calls():
+                c = tt.get("callee") or {}
+                g = None
+                for cid in (c.get("rid"), c.get("id")):
+                    if cid and cid in F.fns and F.fns[cid].file == fn.file and cid != fn.id:
+                        g = F.fns[cid]
+                        break
+                if g is None:
+                    continue
+                for ai, a in enumerate(tt.get("args") or []):
+                    if recv_local({"args": [a]}) != v or not g.local_ty(ai + 1).startswith("&mut "):
+                        continue
+                    from .cfg import Defs as _Defs
+                    gd = _Defs(g)
+                    for gb, gt in g.calls():
+                        if strip_generics(callee_name(gt) or "").endswith("Vec::push") and gt.get("args"):
+                            gp = gd.resolve_place(gt["args"][0])
+                            if gp is not None and gp["l"] == ai + 1:
+                                pushes.append(bi)
+                                break
             clears = {bi for bi, tt in fn.calls() if strip_generics(callee_name(tt) or "").split("::")[-1] in ("clear", "truncate", "take") and tt.get("args") and recv_local(tt) == v}
             clears |= {bi for bi, b in enumerate(fn.blocks) for st in b["s"] if st["k"] == "=" and not st["lhs"]["p"] and st["lhs"]["l"] == v}
             clears |= {bi for bi, tt in fn.calls() if tt["dest"]["l"] == v and not tt["dest"]["p"]}
@@ -320,7 +348,7 @@ def run_pps(F, R, rule, entry_names, kinds, cha_crates, registry_names=None, arm
                 R.undecided(rule, inst, "reachable %s site outside the armed scope (not triaged)" % s.kind, s.loc)
                 hist["undecided"] += 1
                 continue
-            how = discharge_const(s) or D.cond_rule(s) or D.folded_const_rule(s) or D.split_checked_rule(s) or D.type_rule(s) or D.guard_rule(s) or D.widened_rule(s) or D.size_rule(s) or D.slice_copy_rule(s) or D.counter_rule(s) or D.dead_arm_rule(s)
+            how = discharge_const(s) or D.cond_rule(s) or D.folded_const_rule(s) or D.split_checked_rule(s) or D.type_rule(s) or D.guard_rule(s) or D.widened_rule(s) or D.size_rule(s) or D.slice_copy_rule(s) or D.counter_rule(s) or D.dead_arm_rule(s) or D.str_idiom_rule(s)
             if how:
                 R.ok(rule, inst, how, s.loc, how=how.split(":")[0])
                 hist[how.split(":")[0]] += 1
@@ -344,6 +372,19 @@ def run_pps(F, R, rule, entry_names, kinds, cha_crates, registry_names=None, arm
             ek = site_to_entry.get(inst)
             ent = view.get(ek) if ek is not None else None
             moved_from = ek.split("|", 1)[0] if ek is not None and ek != inst else None
+            if ent is not None and ent.get("guards"):
+                from .guardfacts import guard_facts, check_guards
+                from .sitematch import same_snip
+                okk, why = check_guards(ent["guards"], guard_facts(D, fn, s.bb))
+                if not okk:
+                    if ek == inst and (not ent.get("snip") or same_snip(ent["snip"], s.snip)):
+                        # the very site the argument was written for, under weaker guards
+                        used.add(inst)
+                        hist["guards-failed"] += 1
+                        R.violation(rule, inst, "the audited invariant for this site was argued under guards that changed: %s (site: %s `%s`)" % (why, fn.name, s.snip[:70]), s.loc)
+                        continue
+                    # matched by position or after a move only: the guards do not fit, so this is not the site the entry was written for
+                    ent = None
             if ent is not None:
                 used.add(inst)
                 req = ent.get("requires")
